@@ -859,6 +859,86 @@ def r9_duplicate_detection(rep, src):
                      % ([n_.spelling for n_ in names], got), where=f.where)
 
 
+def r3b_line_source(rep, src):
+    """what reaches the line loop is what the caller passed: the local generator(s) that prepare the lines (bytes → str) yield every
+    item exactly once, the str ones unchanged and the bytes ones decoded -- decided on the paths of their loop bodies"""
+    f = src.func(TK + ':tokenize_deb822_file')
+    gens = [n for n in f.node.body if isinstance(n, ast.FunctionDef) and any(isinstance(x, (ast.Yield, ast.YieldFrom)) for x in ast.walk(n))]
+    n_gen = 0
+    for gfn in gens:
+        used = any(isinstance(c, ast.Call) and isinstance(c.func, ast.Name) and c.func.id == gfn.name for st in f.node.body if st is not gfn for c in ast.walk(st))
+        if not used:
+            continue
+        n_gen += 1
+        site = '%s.%s' % (f.site, gfn.name)
+        what = 'line source %s yields the items unchanged' % gfn.name
+        loops = [s_ for s_ in gfn.body if isinstance(s_, ast.For)]
+        others = [s_ for s_ in gfn.body if not isinstance(s_, ast.For) and not (isinstance(s_, ast.Expr) and isinstance(s_.value, ast.Constant))]
+        if len(loops) != 1 or others or not gfn.args.args or any(isinstance(x, ast.YieldFrom) for x in ast.walk(gfn)):
+            raise AnalysisError('%s: not a single loop over the items' % site)
+        lp = loops[0]
+        var = lp.target
+        if isinstance(var, ast.Tuple) and isinstance(lp.iter, ast.Call) and norm(lp.iter.func) == 'enumerate' and len(var.elts) == 2:
+            var = var.elts[1]
+            src_it = lp.iter.args[0]
+        else:
+            src_it = lp.iter
+        if not isinstance(var, ast.Name) or norm(src_it) != gfn.args.args[0].arg:
+            raise AnalysisError('%s: the loop does not run over the items of its argument' % site)
+        v = var.id
+        bad = None
+        ps = paths.Enumerator(paths.Folder()).run(lp.body, [paths.Path()])
+        for p_ in ps:
+            if p_.outcome is not None and p_.outcome[0] == 'raise':
+                continue
+            ys = [ev[1].value.value for ev in p_.events if ev[0] == 'effect' and isinstance(ev[1], ast.Expr) and isinstance(ev[1].value, ast.Yield)]
+            is_bytes = None
+            for t_, pol in p_.conds:
+                if isinstance(t_, ast.Call) and norm(t_.func) == 'isinstance' and len(t_.args) == 2 and norm(t_.args[0]) == v:
+                    if norm(t_.args[1]) == 'bytes':
+                        is_bytes = pol
+                    elif norm(t_.args[1]) == 'str':
+                        is_bytes = not pol
+            if len(ys) != 1:
+                bad = bad or 'on the path [%s] an item is yielded %d times' % (p_.describe()[:100], len(ys))
+                continue
+            y = ys[0]
+            if norm(y) == v and is_bytes is not True:
+                continue
+            if isinstance(y, ast.Call) and isinstance(y.func, ast.Attribute) and y.func.attr == 'decode' and norm(y.func.value) == v and is_bytes is True:
+                continue
+            bad = bad or 'on the path [%s] the item reaches the tokenizer as `%s`' % (p_.describe()[:110], norm(y)[:50])
+        if bad:
+            rep.fail('C01.R3', site, what, bad + ': characters of the input are not part of any token, so the dump differs from the input', where='%s:%d' % (f.module.relpath, gfn.lineno))
+        else:
+            rep.ok('C01.R3', site, what, '%d path(s): str as it is, bytes decoded' % len(ps))
+    # the expression the line iterator is built from: the argument itself, a call of a generator checked above, or a generator
+    # expression of the same shape
+    param = f.params()[0]
+    srcs = [c.args[0] for c in ast.walk(f.node) if isinstance(c, ast.Call) and norm(c.func) == 'BufferingIterator' and c.args]
+    if len(srcs) != 1:
+        raise AnalysisError('%s: the line iterator (BufferingIterator(...)) was not found' % f.site)
+    e = srcs[0]
+    if isinstance(e, ast.Name) and e.id == param:
+        rep.ok('C01.R3', f.site, 'line source', 'the lines are read from the argument directly', nontrivial=False)
+    elif isinstance(e, ast.Call) and isinstance(e.func, ast.Name) and e.func.id in [g_.name for g_ in gens] and [norm(a) for a in e.args] == [param]:
+        rep.ok('C01.R3', f.site, 'line source', '%s(%s)' % (e.func.id, param), nontrivial=False)
+    elif isinstance(e, ast.GeneratorExp) and len(e.generators) == 1 and not e.generators[0].ifs and isinstance(e.generators[0].target, ast.Name) \
+            and norm(e.generators[0].iter) == param:
+        v = e.generators[0].target.id
+        el = e.elt
+        okel = norm(el) == v or (isinstance(el, ast.IfExp) and norm(el.test) == 'isinstance(%s, bytes)' % v and norm(el.orelse) == v
+                                 and isinstance(el.body, ast.Call) and isinstance(el.body.func, ast.Attribute) and el.body.func.attr == 'decode' and norm(el.body.func.value) == v) \
+            or (isinstance(el, ast.IfExp) and norm(el.test) == 'isinstance(%s, str)' % v and norm(el.body) == v
+                and isinstance(el.orelse, ast.Call) and isinstance(el.orelse.func, ast.Attribute) and el.orelse.func.attr == 'decode' and norm(el.orelse.func.value) == v)
+        if okel:
+            rep.ok('C01.R3', f.site, 'line source', norm(e)[:70], nontrivial=False)
+        else:
+            rep.fail('C01.R3', f.site, 'line source', 'the items reach the tokenizer as `%s`, not unchanged / decoded' % norm(el)[:60], where=f.where)
+    else:
+        raise AnalysisError('%s: the line iterator is built from %s, which is outside the recognised sources' % (f.site, norm(e)[:60]))
+
+
 def check(src, rep, tier):
     rep.explanation = ('C01: (R1) L_match(_RE_FIELD_LINE) ∩ LINE ⊆ L_fullmatch; (R2) on the marked automaton every character of a matched line '
                        'lies in exactly one capturing group, groups in index order; (R3) the tokenizer loop body is interpreted over character '
@@ -886,6 +966,7 @@ def check(src, rep, tier):
     if loop is not None:
         rep.guard('C01.R6', r6_whitespace_merge, src, loop)
         rep.guard('C01.R7', r7_mode_selection, src, loop)
+    rep.guard('C01.R3', r3b_line_source, src)
     rep.guard('C01.R4', r4_regrouping, src)
     rep.guard('C01.R5', r5_element_order, src)
     rep.guard('C01.R8', r8_token_invariants, src)
